@@ -75,10 +75,11 @@ def run_check(prop: str, tier: str, only=None, jobs: int = 16, seed: int = 0) ->
     module = f"harness.{prop.lower()}"
     mod = importlib.import_module(module)
     harnesses = [h for h in mod.HARNESSES if tier in h.tiers and (not only or h.name in only)]
-    build_dir = os.path.join(ROOT, ".build", f"{prop}-{tier}")
+    build_dir = os.path.join(os.environ.get("VERIF_BUILD_DIR") or os.path.join(ROOT, ".build"), f"{prop}-{tier}")
     shutil.rmtree(build_dir, ignore_errors=True)
     os.makedirs(build_dir, exist_ok=True)
-    replay_dir = os.path.join(ROOT, "evidence", "replays")
+    ev_dir = os.environ.get("VERIF_EVIDENCE_DIR") or os.path.join(ROOT, "evidence")
+    replay_dir = os.path.join(ev_dir, "replays")
     os.makedirs(replay_dir, exist_ok=True)
 
     all_specs = []
@@ -274,8 +275,8 @@ def run_check(prop: str, tier: str, only=None, jobs: int = 16, seed: int = 0) ->
         "wall_s": round(wall, 2),
         "violations": len(violations),
     }
-    os.makedirs(os.path.join(ROOT, "evidence"), exist_ok=True)
-    with open(os.path.join(ROOT, "evidence", f"{prop}.json"), "w") as fh:
+    os.makedirs(ev_dir, exist_ok=True)
+    with open(os.path.join(ev_dir, f"{prop}.json"), "w") as fh:
         json.dump(evidence, fh, indent=1, default=repr)
 
     for e in ev_harnesses:
